@@ -255,6 +255,15 @@ func gen(tier string) []proto.Item {
 							fl = "foreign-flow"
 						}
 						items = append(items, proto.Item{Scn: s, Class: fmt.Sprintf("%s/handshake-synack/%s/%s/ts-%v", v, kind, fl, ts)})
+						if !foreign && ts {
+							// the same mutations of a SYN-ACK that acknowledges ANOTHER number (stale, forged): skipped like the
+							// others - accepting one would shift the connection's sequence base
+							s2 := s
+							sa := *s.SynAck
+							sa.NoiseAckDelta = 0x1000
+							s2.SynAck = &sa
+							items = append(items, proto.Item{Scn: s2, Class: fmt.Sprintf("%s/handshake-synack/%s/%s/ts-%v/acknowledging-another-number", v, kind, fl, ts)})
+						}
 					}
 				}
 			}
